@@ -46,7 +46,7 @@ def gen_template(rnd, ti):
     elif ks == 'shuffled':
         keys = rnd.sample(range(2 * n), n)
     atoms = []
-    resid = 1
+    resid = rnd.choice([1, 1, 1, 0, -1])       # residue number 0 and negative numbers are legal
     for i, k in enumerate(keys):
         if i and rnd.random() < 0.4:
             resid += 1
@@ -182,7 +182,7 @@ def check_files(workdir, molecule_sizes_hint=None, top='topol.top', pdb='out.pdb
         for k, (ai, row) in enumerate(zip(idxs, rows)):
             a = pdbp['atoms'][ai]
             if a['name'] != row['atom'][:4] or a['resname'] != row['residue'][:3 if len(row['residue']) > 3 else 4][:4] and a['resname'] != row['residue'][:3] \
-                    or a['resid'] != int(row['resnr']) % 10000:
+                    or a['resid'] != int(str(int(row['resnr']))[-4:]):
                 return ('pdb-vs-itp/record', {'molecule': mi, 'moltype': n, 'k': k, 'pdb': [a['name'], a['resname'], a['resid']],
                                               'itp': [row['atom'], row['residue'], row['resnr']]}), info
     if gro:
@@ -192,7 +192,7 @@ def check_files(workdir, molecule_sizes_hint=None, top='topol.top', pdb='out.pdb
         if len(g['atoms']) != len(flat):
             return ('gro-vs-itp/atom-count', {'gro': len(g['atoms']), 'itp': len(flat)}), info
         for k, (a, (n, row)) in enumerate(zip(g['atoms'], flat)):
-            if a['name'] != row['atom'][:5] or a['resname'] != row['residue'][:5] or a['resid'] != int(row['resnr']) % 100000:
+            if a['name'] != row['atom'][:5] or a['resname'] != row['residue'][:5] or a['resid'] != int(str(int(row['resnr']))[-5:]):
                 return ('gro-vs-itp/record', {'k': k, 'moltype': n, 'gro': [a['name'], a['resname'], a['resid']],
                                               'itp': [row['atom'], row['residue'], row['resnr']]}), info
     return None, info
